@@ -82,9 +82,9 @@ func oneTree(o *opts, r *rng, s *summary, i int, sc treeScenario, distinct map[s
 	must(os.MkdirAll(filepath.Join(p.Root, "sub", "deep"), 0o755))
 	var pool [][]byte
 	var art *Node
-	to := treeOpts{maxDepth: 2, maxFan: 4, hostile: true, allowEmptyDir: true}
+	to := treeOpts{maxDepth: 2, maxFan: 4, hostile: true, allowEmptyDir: true, siblings: true}
 	if o.tier == "thorough" && r.chance(1, 4) {
-		to = treeOpts{maxDepth: 4, maxFan: 7, hostile: true, allowEmptyDir: true}
+		to = treeOpts{maxDepth: 4, maxFan: 7, hostile: true, allowEmptyDir: true, siblings: true}
 	}
 	switch sc.kind {
 	case "file":
